@@ -148,7 +148,9 @@ func Domain(t reflect.Type, depth int) []reflect.Value {
 		add(json.Number("12"), json.Number(""), json.Number("-1.5e3"), json.Number("01"), json.Number("1 "), json.Number("0x1"), json.Number("abc"), json.Number("1e400"))
 		return out
 	case T[json.RawMessage]():
-		add(json.RawMessage(`{"a":1}`), json.RawMessage(nil), json.RawMessage(` [ 1 , "<x>" ] `), json.RawMessage(`{"a":}`), json.RawMessage(``), json.RawMessage(`" "`), json.RawMessage(`1 2`), json.RawMessage("null"))
+		add(json.RawMessage(`{"a":1}`), json.RawMessage(nil), json.RawMessage(` [ 1 , "<x>" ] `), json.RawMessage(`{"a":}`), json.RawMessage(``), json.RawMessage(`" "`), json.RawMessage(`1 2`), json.RawMessage("null"),
+			// escapes followed by strings and keys holding white space: what the compacting copy must not lose track of
+			json.RawMessage(`{"e":"a\nb","k y":"c  d","u":"\u00e9 \"q\" x", "<h>":"\\"}`), json.RawMessage(` [ "t\tx" , "hello world" , "\\" , "a b" ] `))
 		return out
 	case T[time.Time]():
 		add(time.Date(2021, 3, 25, 21, 36, 12, 5000, time.UTC), time.Time{}, time.Date(-1, 1, 1, 0, 0, 0, 0, time.UTC), time.Date(10000, 1, 1, 0, 0, 0, 0, time.UTC), time.Date(2000, 2, 29, 1, 2, 3, 999999999, time.FixedZone("x", 3600*5+1800)), time.Date(2020, 1, 1, 0, 0, 0, 0, time.FixedZone("", 24*3600)), time.Date(2020, 1, 1, 0, 0, 0, 0, time.FixedZone("", -24*3600)), time.Date(2020, 1, 1, 0, 0, 0, 0, time.FixedZone("", 23*3600+59*60+59)))
